@@ -379,7 +379,8 @@ def match_finding(case, what):
     if kind in ("two-persistent-objects-one-identity", "persistent-object-not-in-identity-map"):
         if case.get("nostop"):
             return "C34-double-row-switch"
-        if 11 in codes:
+        token_alias = any((o[0] & 15) in (0, 1) and ((o[0] >> 7) & 7 if len(o) == 2 else o[2]) for o in ops)
+        if 11 in codes or (6 in codes and token_alias):
             return "C34-identity-replaced-after-row-vanished"
     return None
 
